@@ -314,6 +314,20 @@ class MetadorDataset(MetadorNode):
         self._guard_acl(NodeAcl.skel_only, "__iter__")
         return iter(self.__wrapped__)
 
+    # the proxy would forward these to the raw dataset, where they read the data
+
+    def __reversed__(self):
+        self._guard_acl(NodeAcl.skel_only, "__reversed__")
+        return reversed(self.__wrapped__)
+
+    def __contains__(self, item):
+        self._guard_acl(NodeAcl.skel_only, "__contains__")
+        return item in self.__wrapped__
+
+    def __bytes__(self):
+        self._guard_acl(NodeAcl.skel_only, "__bytes__")
+        return bytes(self.__wrapped__)
+
     # prevent getter of node if marked as skel_only
     def __getitem__(self, *args, **kwargs):
         self._guard_acl(NodeAcl.skel_only, "__getitem__")
